@@ -216,8 +216,12 @@ func (g *Gen) body(ind string) string {
 		k := joinPath(e.src) + " " + e.arrow + " " + joinPath(e.dst)
 		i := grp[k]
 		grp[k]++
-		if i > 0 && g.R.Intn(2) == 0 {
+		if (i > 0 && g.R.Intn(2) == 0) || (g.Extras && g.R.Intn(4) == 0) {
 			a := edgeAttrChoices[g.R.Intn(len(edgeAttrChoices))]
+			if g.Extras && g.R.Intn(3) == 0 {
+				// the arrowhead's label through its primary value, as its own indexed key
+				a = []kv{{"source-arrowhead", "1"}, {"target-arrowhead", "many"}}[g.R.Intn(2)]
+			}
 			dup := false
 			for _, x := range e.attrs {
 				if x[0] == a[0] {
@@ -293,6 +297,12 @@ func (g *Gen) extras(sb *strings.Builder, ind string, all []pathObj) {
 			fmt.Fprintf(sb, "%s(%s %s %s)[0]: %s\n", ind, ns[i], arrow, ns[i+1], g.edgeLabel())
 		}
 		g.count("gen:x-chain")
+	}
+	if yes() { // a connection whose arrowhead label is set through the arrowhead's primary value, as its own indexed key
+		a, b := g.mname(), g.mname()
+		fmt.Fprintf(sb, "%s%s: %s\n%s%s: %s\n%s%s -> %s: %s\n", ind, a, g.objLabel(), ind, b, g.objLabel(), ind, a, b, g.edgeLabel())
+		fmt.Fprintf(sb, "%s(%s -> %s)[0].%s: %s\n", ind, a, b, []string{"source-arrowhead", "target-arrowhead"}[g.R.Intn(2)], []string{"1", "many"}[g.R.Intn(2)])
+		g.count("gen:x-arrowhead-primary-label")
 	}
 	if yes() { // an object that exists only through flat keys, the same attribute twice
 		m := g.mname()
